@@ -11,7 +11,7 @@ txt = open(f'/verif/build/seedres/{name}.json').read()
 res = json.loads(txt[txt.index('{'):])
 ok = res.get('demo_clean_passes') and res.get('demo_patched_fails') and res.get('tests_pass_with_patch')
 caught = {c: v['exit'] == 1 for c, v in res.get('checks', {}).items()}
-print(name, 'confirmed' if ok else 'NOT CONFIRMED', 'caught' if any(caught.values()) else 'MISSED', res.get('tests_tail'))
+print(name, 'confirmed' if ok else 'NOT CONFIRMED', 'caught' if any(caught.values()) else 'MISSED', {c: v['exit'] for c, v in res.get('checks', {}).items()}, res.get('tests_tail'))
 if ok:
     out = pathlib.Path('/verif/seeded') / name
     out.mkdir(parents=True, exist_ok=True)
